@@ -1,12 +1,13 @@
 SPECIFICATION SafetySpec
 CONSTANTS
+  MetaNs = {3}
   Budgets = {1, 3}
   Pols = {"auto", "ignore", "keep"}
-  Objs <- ObjsAll
+  Objs <- ObjsOne
   MaxRank = 1
   MaxInner = 1
-  Boxes <- BoxesQ
+  Boxes <- BoxesQ1
   KConv = 1000
   KConvX = 10
-INVARIANTS TypeOK Descent ReportConsistent Budget FeasibleAlways Converged Bracketed Protocol HeldDescends
+INVARIANTS TypeOK MetaSchedule Descent ReportConsistent Budget FeasibleAlways Converged Bracketed Protocol HeldDescends
 CHECK_DEADLOCK FALSE
